@@ -148,8 +148,10 @@ def add_glue_as_needed(*, _sys_modules_len_cache: list[int] = [0]) -> None:
 functools_singledispatch_wrapper = get_code(functools.singledispatch, "wrapper")
 
 
-def get_true_caller() -> types.FrameType:
-    # Return the frame that called into the traceback-producing machinery
+def find_true_caller() -> Optional[types.FrameType]:
+    # Return the frame that called into the traceback-producing machinery,
+    # or None if there is no such frame in the current greenlet (the
+    # greenlet's entry point is itself one of our functions)
     caller: Optional[types.FrameType] = sys._getframe(1)
 
     def is_mine(name: str) -> bool:
@@ -162,6 +164,11 @@ def get_true_caller() -> types.FrameType:
         or caller.f_code is functools_singledispatch_wrapper
     ):
         caller = caller.f_back
+    return caller
+
+
+def get_true_caller() -> types.FrameType:
+    caller = find_true_caller()
     assert caller is not None
     return caller
 
@@ -205,7 +212,7 @@ def unwrap_stackslice(spec: StackSlice) -> Iterator[types.FrameType]:
         # current callstack always work, so it doesn't need this trick.
         this_thread_frames: List[types.FrameType] = []
         greenlet: Optional[GreenletType] = greenlet_getcurrent()
-        current: Optional[types.FrameType] = get_true_caller()
+        current: Optional[types.FrameType] = find_true_caller()
         while greenlet is not None:
             while current is not None:
                 this_thread_frames.append(current)
